@@ -493,6 +493,21 @@ func runC14(s *sim) {
 		cancelAt = s.now()
 		s.settle()
 	}
+	// After the cancellation the scripted peers stay silent: a frame or a new stream that reaches a
+	// reader goroutine then meets a select with two ready cases (buffered hand-off to the event loop,
+	// cancelled context) and which one it takes is the Go runtime's coin, not the simulator's. The
+	// API surface, time and the closing of streams are still exercised after the cancellation.
+	w.skipItem = func(it Item) bool {
+		if !cancelled {
+			return false
+		}
+		switch it.Op {
+		case "api", "storm", "adv", "release", "release-all", "disconnect", "stall":
+			return false
+		}
+		s.probe("wire_input_skipped_after_cancel")
+		return true
+	}
 	pos := p.ki("cancel_pos", 0)
 	step := 0
 	w.beforeItem = append(w.beforeItem, func(it Item) {
